@@ -106,6 +106,14 @@ def restore_baseline(only=None):
 FOLLOWABILITY = ("shapes_recognised", "every_type_has_a_modelled_shape", "model_reviewed_against_source")
 
 
+def extraction_incomplete():
+    """what the extractor could not follow in the working tree (Knx/Gen/Status.lean, written on every run)"""
+    p = os.path.join(LEAN, "Knx", "Gen", "Status.lean")
+    if not os.path.exists(p):
+        return []
+    return re.findall(r'^\s+"((?:[^"\\]|\\.)*)",?$', open(p, encoding="utf-8").read(), re.M)
+
+
 def only_followability(items):
     """items: entries of broken_theorems (`path:line name - msg`)"""
     for it in items:
